@@ -1,4 +1,6 @@
 import Xp.Proofs.C12T
+import Xp.Proofs.C12H
+import Xp.Gen.C12Skel
 /-
 C12 — composition revisions form a faithful, monotonic history.
 
@@ -24,6 +26,13 @@ variable {H : Naming} {D : Content → Prop}
 
 /-! ### tie to the source (regenerated on every run) -/
 
+def specW (fn : String) : Spec := ⟨"example.org/v1", "XThing", some "Pipeline", [], [], [("compose", fn)], none, none⟩
+def rs0 : RevSpec := toRevisionSpec (specW "function-0")
+def rs1 : RevSpec := toRevisionSpec (specW "function-1")
+def cA0 : Content := ⟨[("channel", "dev")], [], specW "function-0"⟩
+/-- a naming for the path theorems below -/
+def HW0 : Naming := ⟨fun _ => "ha", fun n _ => n ++ "-a"⟩
+
 /-- The order of API calls and of the `LatestRevision` computation in the Go
 `Reconcile` (go/ast walk of the current tree) is the one the model mirrors:
 adoption loop, then `LatestRevision`, then the renumbering loop, then `Create`. -/
@@ -31,6 +40,136 @@ theorem skeleton_matches : Xp.Gen.compositionReconcileSkeleton = reconcileSkelet
 
 /-- the label keys the model's selector evaluation special-cases are the ones of the API package -/
 theorem label_keys_distinct : Xp.Gen.labelCompositionName ≠ Xp.Gen.labelCompositionHash := by decide
+
+/-- `Reconciler.Reconcile`: every client call and every helper whose position decides the
+outcome, in source order, is the step of `reconcile` / `adoptLoop` / `renumLoop` named in
+`reconcileCallSkel` -/
+theorem skeleton_Reconcile : Xp.Gen.c12ReconcileSkel = reconcileCallSkel := by decide
+
+/-- `NewCompositionRevision` ↔ `newRev`, field by field -/
+theorem skeleton_NewCompositionRevision : Xp.Gen.c12NewRevisionSkel = newRevSkel := by decide
+
+/-- `NewCompositionRevisionSpec` ↔ `toRevisionSpec` + `Rev.num` -/
+theorem skeleton_NewCompositionRevisionSpec : Xp.Gen.c12NewRevisionSpecSkel = newRevisionSpecSkel := by decide
+
+/-- the generated converter calls one helper per structured field -/
+theorem skeleton_ToRevisionSpec : Xp.Gen.c12ToRevisionSpecSkel = toRevisionSpecSkel := by decide
+
+/-- `Composition.Hash`: three `yaml.Marshal`, two `append` without separator, one digest -/
+theorem skeleton_Hash : Xp.Gen.c12HashSkel = hashSkel := by decide
+
+/-- `v1.LatestRevision` ↔ `latestGo` -/
+theorem skeleton_LatestRevision : Xp.Gen.c12LatestRevisionSkel = latestRevisionSkel := by decide
+
+/-- `APIRevisionFetcher.Fetch` ↔ `fetch` -/
+theorem skeleton_Fetch : Xp.Gen.c12FetchSkel = fetchSkel := by decide
+
+/-- `APIRevisionFetcher.getCompositionRevisionList` ↔ `fetchSel` + `.listRevs` -/
+theorem skeleton_getCompositionRevisionList : Xp.Gen.c12RevisionListSkel = revisionListSkel := by decide
+
+/-- `EnqueueForCompositionRevision` ↔ `enqueueFor` -/
+theorem skeleton_EnqueueForCompositionRevision : Xp.Gen.c12EnqueueSkel = enqueueSkel := by decide
+
+/-- The client calls of the declared `Reconcile` skeleton are **the requests the model's program
+issues**: along the path that re-adopts and renumbers one revision (Get, List, Update,
+Update) followed by the `Create` of the path that finds no revision (Get, List, Create). -/
+theorem skeleton_Reconcile_is_model_path :
+    let r0 : Rev := ⟨"comp-a", "comp", "ha", 1, none, [], rs0, 1⟩
+    let adoptRenum := pathVerbs (reconcile HW0 "comp") [.comp ⟨"comp", 1, cA0, false⟩, .revs [r0, { r0 with name := "comp-b", hash := "hb", num := 2, ctrl := some 1 }],
+      .rev { r0 with ctrl := some 1 }, .rev { r0 with ctrl := some 1, num := 3 }]
+    let create := pathVerbs (reconcile HW0 "comp") [.comp ⟨"comp", 1, cA0, false⟩, .revs [], .ok]
+    adoptRenum = ["Get", "List", "Update", "Update"] ∧ create = ["Get", "List", "Create"] ∧
+    (adoptRenum ++ create.drop 2).map ("client." ++ ·) =
+      reconcileCallSkel.filter (["client.Get", "client.List", "client.Update", "client.Create"].contains ·) := by decide
+
+/-- … and those of `Fetch` / `getCompositionRevisionList`: the Manual path (the reconciler's
+Get of the XR, Get of the referenced revision) and the Automatic path (Get of the XR, Get of
+the Composition, List, then `Apply` = Get + Patch) -/
+theorem skeleton_Fetch_is_model_path :
+    let r0 : Rev := ⟨"comp-a", "comp", "ha", 1, some 1, [], rs0, 1⟩
+    let xm : XR := ⟨"xr", "comp", some .manual, none, some "comp-a", 0⟩
+    let xa : XR := ⟨"xr", "comp", some .automatic, none, none, 0⟩
+    pathVerbs (fetch "xr") [.xr xm, .rev r0] = ["Get", "Get"] ∧
+    pathVerbs (fetch "xr") [.xr xa, .comp ⟨"comp", 1, cA0, false⟩, .revs [r0], .xr xa, .ok] = ["Get", "Get", "List", "Get", "Patch"] ∧
+    (fetchSkel.filter (["ca.Get", "ca.Apply"].contains ·)).length + 1 = 4 ∧
+    revisionListSkel.filter (· == "ca.List") = ["ca.List"] := by decide
+
+/-- one `key: value` line per map entry, as the model renders it (probed on `yaml.Marshal`) -/
+theorem yaml_entry_line : Xp.Gen.yamlOneEntry = (Tok.entry "k" "v").render (fun _ => "") := by decide
+
+/-- the lengths `NewCompositionRevision` truncates to (probed on the real function): a sha256
+in hex, a 63-character label value, a 7-character name suffix -/
+theorem hash_lengths : Xp.Gen.compositionHashLen = 64 ∧ Xp.Gen.revisionHashLabelLen = 63 ∧
+    Xp.Gen.revisionNameSuffixLen = 7 := by decide
+
+/-- the two truncations of `NewCompositionRevision` are within the digest: 7 ≤ 63 ≤ 64 -/
+theorem hash_truncations : Xp.Gen.revisionNameSuffixLen ≤ Xp.Gen.revisionHashLabelLen ∧
+    Xp.Gen.revisionHashLabelLen ≤ Xp.Gen.compositionHashLen := by decide
+
+/-! ### the revision is a field-by-field copy; the hash input -/
+
+/-- **`NewCompositionRevision` copies the Composition field by field**, for every naming,
+Composition and number: the spec of the revision read back is the Composition's spec (every
+field), the labels are the Composition's, the two crossplane.io labels are the Composition's
+name and the hash label of its content, it is controlled by the Composition. -/
+theorem new_revision_is_copy (H : Naming) (c : Comp) (n : Nat) :
+    (newRev H c n).spec.toSpec = c.content.spec ∧ (newRev H c n).spec = toRevisionSpec c.content.spec ∧
+    (newRev H c n).labels = c.content.labels ∧ (newRev H c n).comp = c.name ∧
+    (newRev H c n).hash = H.hash c.content ∧ (newRev H c n).name = H.name c.name c.content ∧
+    (newRev H c n).ctrl = some c.uid ∧ (newRev H c n).num = n :=
+  ⟨by cases c with | mk _ _ ct _ => cases ct with | mk _ _ sp => cases sp; rfl, rfl, rfl, rfl, rfl, rfl, rfl, rfl⟩
+
+/-- `toRevisionSpec` loses nothing: reading the revision spec back gives the spec -/
+theorem revision_spec_roundtrip (s : Spec) : (toRevisionSpec s).toSpec = s := by cases s; rfl
+
+/-- … and is injective: two Compositions with different specs never share a revision spec -/
+theorem toRevisionSpec_inj {s s' : Spec} (h : toRevisionSpec s = toRevisionSpec s') : s = s' := by
+  rw [← revision_spec_roundtrip s, ← revision_spec_roundtrip s', h]
+
+/-- for the naming the code implements the hash label and the revision name are functions of
+the hash input `yaml(labels) ++ yaml(annotations) ++ yaml(spec)` alone -/
+theorem hash_label_function_of_input (dg : List Tok → String) (c c' : Content) (n : String)
+    (h : hashToks c = hashToks c') :
+    (Naming.ofDigest dg).hash c = (Naming.ofDigest dg).hash c' ∧
+    (Naming.ofDigest dg).name n c = (Naming.ofDigest dg).name n c' := by
+  simp only [Naming.ofDigest, h, and_self]
+
+/-- **For which pairs of contents the input of `Composition.Hash` is injective**: two contents
+have the same input iff they are equal or a label<->annotation move of each other (`Shift`:
+same spec, labels and annotations all non-empty, the label entries followed by the
+annotation entries are the same sequence). -/
+theorem hash_input_eq_iff (c c' : Content) : hashToks c = hashToks c' ↔ c = c' ∨ Shift c c' :=
+  hashToks_eq_iff' c c'
+
+/-- whatever collides, **the hash input determines the spec** … -/
+theorem hash_input_determines_spec {c c' : Content} (h : hashToks c = hashToks c') : c.spec = c'.spec :=
+  hashToks_spec h
+
+/-- … and the labels a colliding content's revision carries are a prefix of the other
+content's label entries followed by its annotation entries -/
+theorem shift_labels_prefix {c c' : Content} (h : hashToks c = hashToks c') :
+    c.labels <+: c'.labels ++ c'.annos := by
+  rw [← hashToks_entries h]; exact List.prefix_append _ _
+
+/-- **The naming assumption of the history theorems, made precise**: for the naming the code
+implements, `Naming.Inj` on a set `D` of contents holds when the digest is collision-free on
+the inputs of `D` (also truncated) and `D` contains no label<->annotation move … -/
+theorem naming_inj_of_digest {dg : List Tok → String} (hd : DigestInj dg D) (hs : Separated D) :
+    (Naming.ofDigest dg).Inj D := ofDigest_inj' hd hs
+
+/-- … and fails, whatever the digest, as soon as `D` contains one -/
+theorem naming_not_inj_on_move (dg : List Tok → String) {c c' : Content} (d : D c) (d' : D c')
+    (hne : c ≠ c') (hsh : Shift c c') : ¬ (Naming.ofDigest dg).Inj D := ofDigest_not_inj' dg d d' hne hsh
+
+/-- **A listed revision carrying the current hash label is reused**: the renumbering loop never
+falls through to the `Create` when the (re-adopted) list contains a revision whose hash
+label is the current hash — for every list with numbers ≥ 1, every continuation that
+creates only when no revision was found. This is what happens after a label<->annotation
+move: the revision of the colliding content is kept as the current one. -/
+theorem matching_hash_never_creates (h : String) (latest : Nat) (k : Nat → P Res)
+    (hk : ∀ n, 0 < n → NoCreate (k n)) (l : List Rev) (hpos : ∀ r ∈ l, 1 ≤ r.num)
+    (hex : ∃ r ∈ l, r.hash = h) : NoCreate (renumLoop h latest l 0 k) :=
+  renumLoop_noCreate h latest k hk l 0 hpos (Or.inr hex)
 
 /-! ### histories -/
 
@@ -72,7 +211,7 @@ theorem current_is_highest (hi : H.Inj D) (s : Store) (w : WF H D s) (comp : Str
     (hok : (run sem plan 0 (reconcile H comp) s).2 = some .done ∨
            (run sem plan 0 (reconcile H comp) s).2 = some .created) :
     ∃ r ∈ (run sem plan 0 (reconcile H comp) s).1.revs,
-      r.comp = comp ∧ r.hash = H.hash c.content ∧ r.spec = c.content.spec ∧ r.labels = c.content.labels ∧
+      r.comp = comp ∧ r.hash = H.hash c.content ∧ r.spec = toRevisionSpec c.content.spec ∧ r.labels = c.content.labels ∧
       r.ctrl = some c.uid ∧
       ∀ r' ∈ (run sem plan 0 (reconcile H comp) s).1.revs, r'.comp = comp → r'.name ≠ r.name → r'.num < r.num := by
   have hp := reconcile_safe hi comp s w false (fun h => by cases h)
@@ -89,6 +228,18 @@ theorem current_is_highest (hi : H.Inj D) (s : Store) (w : WF H D s) (comp : Str
   obtain ⟨r, hr, g1, g2, g3, g4, g5, g6⟩ := g
   exact ⟨r, hr, hcn ▸ g1, g2, g3, g4, g5, fun r' hr' hc' hn => g6 r' hr' (hcn ▸ hc') hn⟩
 
+/-- Clause 1 in the property's words: **the revision of the current content, read back as a
+Composition spec, is exactly the Composition's spec** (every field), after every reconcile
+that returned without error, under every fault plan. -/
+theorem current_revision_spec_eq_composition_spec (hi : H.Inj D) (s : Store) (w : WF H D s) (comp : String)
+    (plan : Plan) (c : Comp) (hc : s.comps.find? (·.name = comp) = some c) (hd : c.deleting = false)
+    (hok : (run sem plan 0 (reconcile H comp) s).2 = some .done ∨
+           (run sem plan 0 (reconcile H comp) s).2 = some .created) :
+    ∃ r ∈ (run sem plan 0 (reconcile H comp) s).1.revs,
+      r.comp = comp ∧ r.hash = H.hash c.content ∧ r.spec.toSpec = c.content.spec := by
+  obtain ⟨r, hr, g1, g2, g3, _⟩ := current_is_highest hi s w comp plan c hc hd hok
+  exact ⟨r, hr, g1, g2, by rw [g3]; exact revision_spec_roundtrip _⟩
+
 /-- **Every content a Composition has had at a successful reconcile is captured by
 exactly one revision whose spec and labels equal that content**, at every instant
 of every continuation of the history. -/
@@ -99,7 +250,7 @@ theorem one_rev_per_content (hi : H.Inj D) (s : Store) (w : WF H D s) (comp : St
     (h : List Ev) (hev : ∀ e ∈ h, EvOK D e) :
     ∀ s' ∈ reachHist H h (run sem plan 0 (reconcile H comp) s).1,
       ∃ r ∈ s'.revs, r.comp = comp ∧ r.hash = H.hash c.content ∧
-        r.spec = c.content.spec ∧ r.labels = c.content.labels ∧
+        r.spec = toRevisionSpec c.content.spec ∧ r.labels = c.content.labels ∧
         ∀ r' ∈ s'.revs, r'.comp = comp → r'.hash = H.hash c.content → r' = r := by
   intro s' hs'
   obtain ⟨r, hr, g1, g2, g3, g4, _, _⟩ := current_is_highest hi s w comp plan c hc hd hok
@@ -187,7 +338,7 @@ theorem automatic_gets_current (hi : H.Inj D) (s : Store) (w : WF H D s) (comp :
     (hxc : x.comp = comp) (hnot : ∀ p, x.policy = some .manual → x.ref ≠ some p) (hsel : effSel x = [])
     (plan' : Plan) (r : Rev)
     (hr : (run sem plan' 0 (fetch n) (run sem plan 0 (reconcile H comp) s).1).2 = some (.rev r)) :
-    r.hash = H.hash c.content ∧ r.spec = c.content.spec ∧ r.labels = c.content.labels := by
+    r.hash = H.hash c.content ∧ r.spec = toRevisionSpec c.content.spec ∧ r.labels = c.content.labels := by
   obtain ⟨g, hg, g1, g2, g3, g4, g5, g6⟩ := current_is_highest hi s w comp plan c hc hd hok
   have w1 : WF H D (run sem plan 0 (reconcile H comp) s).1 :=
     (reachEv_ok hi w (.reconcile comp plan) trivial).2.2.1
@@ -222,9 +373,9 @@ theorem automatic_gets_current (hi : H.Inj D) (s : Store) (w : WF H D s) (comp :
 
 /-! ### the hypotheses are satisfiable; A-B-A -/
 
-def cA : Content := ⟨[("channel", "dev")], 0, 0⟩
-def cB : Content := ⟨[("channel", "dev")], 1, 0⟩   -- annotation-only edit of cA
-def cC : Content := ⟨[], 0, 1⟩
+def cA : Content := ⟨[("channel", "dev")], [], specW "function-0"⟩
+def cB : Content := ⟨[("channel", "dev")], [("example.org/note", "v1")], specW "function-0"⟩   -- annotation-only edit of cA
+def cC : Content := ⟨[], [], specW "function-1"⟩
 
 /-- a concrete naming on three contents -/
 def HW : Naming where
@@ -312,9 +463,9 @@ example : ∃ s c, WF HW DW s ∧ s.comps.find? (·.name = "comp") = some c ∧ 
 references were stripped by a backup/restore; the Composition has a new UID -/
 def d4Store : Store :=
   ⟨[⟨"comp", 10, cC, false⟩],
-   [⟨"comp-a", "comp", "ha", 1, none, [("channel", "dev")], 0, 2⟩,
-    ⟨"comp-b", "comp", "hb", 2, none, [("channel", "dev")], 0, 2⟩,
-    ⟨"comp-c", "comp", "hc", 3, none, [], 1, 2⟩], []⟩
+   [⟨"comp-a", "comp", "ha", 1, none, [("channel", "dev")], rs0, 2⟩,
+    ⟨"comp-b", "comp", "hb", 2, none, [("channel", "dev")], rs0, 2⟩,
+    ⟨"comp-c", "comp", "hc", 3, none, [], rs1, 2⟩], []⟩
 
 /-- what one fault-free reconcile of the unchanged ordering does to it: the current revision goes 3 → 1 -/
 theorem d4_unfixed_run :
@@ -415,7 +566,7 @@ theorem current_is_highest_under_interference (hi : H.Inj D) (s : Store) (w : WF
     (hok : (runX (fun _ => sem) env plan 0 (reconcile H comp) s).2 = some .done ∨
            (runX (fun _ => sem) env plan 0 (reconcile H comp) s).2 = some .created) :
     ∃ r ∈ (runX (fun _ => sem) env plan 0 (reconcile H comp) s).1.revs,
-      r.comp = comp ∧ r.hash = H.hash c.content ∧ r.spec = c.content.spec ∧ r.labels = c.content.labels ∧
+      r.comp = comp ∧ r.hash = H.hash c.content ∧ r.spec = toRevisionSpec c.content.spec ∧ r.labels = c.content.labels ∧
       ∀ r' ∈ (runX (fun _ => sem) env plan 0 (reconcile H comp) s).1.revs,
         r'.comp = comp → r'.name ≠ r.name → r'.num < r.num := by
   have hcn : c.name = comp := find_name (f := Comp.name) hc
@@ -469,8 +620,8 @@ theorem enqueue_exactly_automatic (xrs : List XR) (r : Rev) (hr : r.comp ≠ "")
 
 /-! ### finding D22: with a lagging revision list the current content does not get the highest number -/
 
-def revA : Rev := ⟨"comp-a", "comp", "ha", 1, some 1, [("channel", "dev")], 0, 1⟩
-def revB : Rev := ⟨"comp-b", "comp", "hb", 2, some 1, [("channel", "dev")], 0, 1⟩
+def revA : Rev := ⟨"comp-a", "comp", "ha", 1, some 1, [("channel", "dev")], rs0, 1⟩
+def revB : Rev := ⟨"comp-b", "comp", "hb", 2, some 1, [("channel", "dev")], rs0, 1⟩
 
 /-- contents A, B captured as revisions 1, 2; the Composition was just edited to C -/
 def staleStore : Store := ⟨[comp0 cC], [revA, revB], [⟨"xr", "comp", some .automatic, none, none, 0⟩]⟩
@@ -498,5 +649,100 @@ theorem stale_list_tie_is_never_repaired_witness :
     run sem Plan.allOk 0 (reconcile HW "comp") afterStale = (afterStale, some .done) ∧
     ((run sem Plan.allOk 0 (fetch "xr") afterStale).2.map fun | .rev r => r.name | .err => "err") = some "comp-b" := by
   decide
+
+/-! ### observation: a label<->annotation move does not change the hash input
+
+`Composition.Hash` concatenates yaml(labels), yaml(annotations), yaml(spec) without separator
+(`skeleton_Hash`, `hash_input_eq_iff`). Moving the last label entries to the front of the
+annotations (both maps staying non-empty) is a label/annotation-only edit that leaves the
+input, hence the hash label, unchanged: no new revision is created, the revision of the
+previous content stays the current one. Its spec equals the new content's spec
+(`hash_input_determines_spec`); the labels copied at its creation are those of the previous
+content (`shift_labels_prefix`). The clauses of the property (spec equals the content, numbers,
+highest, Manual / Automatic selection) hold; what does not carry over is the strengthening
+`r.labels = c.content.labels` of `current_is_highest`, whose hypothesis `Naming.Inj` is false
+for such a pair (`naming_not_inj_on_move`). -/
+
+def cX : Content := ⟨[("channel", "dev"), ("tier", "gold")], [("zone", "z1")], specW "function-0"⟩
+/-- `cX` with the label `tier: gold` moved to the annotations -/
+def cY : Content := ⟨[("channel", "dev")], [("tier", "gold"), ("zone", "z1")], specW "function-0"⟩
+
+/-- the move is a `Shift`: two distinct contents with the same hash input -/
+theorem move_collides_witness : cX ≠ cY ∧ Shift cX cY ∧ hashToks cX = hashToks cY := by decide
+
+/-- a digest on the inputs of `cX` (= that of `cY`), `cA`, and everything else -/
+def dgW (t : List Tok) : String :=
+  if t = hashToks cX then "1111111aaaa" else if t = hashToks cA then "2222222bbbb" else "3333333cccc"
+
+def HD : Naming := Naming.ofDigest dgW
+
+def xrGold : XR := ⟨"xr", "comp", some .automatic, some [("tier", "gold")], none, 0⟩
+
+/-- X, reconcile, move edit to Y, reconcile -/
+def moveHistory : List Ev :=
+  [.reconcile "comp" Plan.allOk, .putComp (comp0 cY), .reconcile "comp" Plan.allOk]
+
+/-- **What the move edit does**, on the model of the unchanged code: the second reconcile
+returns `done` without creating anything; the one revision keeps number 1 and the labels of
+X (`tier: gold` is no label of Y any more); its spec is Y's spec; an Automatic XR selecting
+`tier: gold` is still handed it. -/
+theorem move_edit_keeps_revision_witness :
+    (runHist HD moveHistory ⟨[comp0 cX], [], [xrGold]⟩).revs.map (fun r => (r.name, r.num, r.labels, decide (r.spec = toRevisionSpec cY.spec))) =
+      [("comp-1111111", 1, cX.labels, true)] ∧
+    (run sem Plan.allOk 0 (reconcile HD "comp") (runHist HD (moveHistory.take 2) ⟨[comp0 cX], [], [xrGold]⟩)).2 = some .done ∧
+    ((run sem Plan.allOk 0 (fetch "xr") (runHist HD moveHistory ⟨[comp0 cX], [], [xrGold]⟩)).2.map
+      fun | .rev r => r.name | .err => "err") = some "comp-1111111" := by decide
+
+/-- the move in the other direction (Y first, then the label added by moving it out of the
+annotations): no revision carries the new label, the selecting XR finds no revision -/
+theorem move_edit_reverse_witness :
+    (runHist HD [.reconcile "comp" Plan.allOk, .putComp (comp0 cX), .reconcile "comp" Plan.allOk]
+      ⟨[comp0 cY], [], [xrGold]⟩).revs.map (fun r => (r.name, r.num, r.labels)) = [("comp-1111111", 1, cY.labels)] ∧
+    ((run sem Plan.allOk 0 (fetch "xr") (runHist HD [.reconcile "comp" Plan.allOk, .putComp (comp0 cX),
+      .reconcile "comp" Plan.allOk] ⟨[comp0 cY], [], [xrGold]⟩)).2.map fun | .rev r => r.name | .err => "err") = some "err" := by
+  decide
+
+/-! the hypotheses of the new theorems are satisfiable -/
+
+def DW2 (c : Content) : Prop := c = cX ∨ c = cA ∨ c = cC
+
+/-- a set of three contents without a move … -/
+theorem DW2_separated : Separated DW2 := by
+  intro c c' h h' hs
+  rcases h with h | h | h <;> rcases h' with h' | h' | h' <;> subst h <;> subst h' <;>
+    first | rfl | exact absurd hs (by decide)
+
+/-- … on which `dgW` is collision-free, so that `naming_inj_of_digest` applies to `HD` -/
+example : DigestInj dgW DW2 where
+  label := fun c c' h h' e => by
+    rcases h with h | h | h <;> rcases h' with h' | h' | h' <;> subst h <;> subst h' <;>
+      first | rfl | exact absurd e (by decide)
+  name := fun n c n' c' h h' e => by
+    rcases h with h | h | h <;> rcases h' with h' | h' | h' <;> subst h <;> subst h' <;>
+      (simp only [Naming.ofDigest] at e
+       have h1 := append_inj_of_len _ _ _ _ (by decide) e
+       have h2 := append_inj_of_len _ _ _ _ (by decide) h1.1
+       first
+       | exact ⟨h2.1, rfl⟩
+       | exact absurd h1.2 (by decide))
+
+/-- `naming_not_inj_on_move` applies to every set containing `cX` and `cY` -/
+example : ¬ HD.Inj (fun c => c = cX ∨ c = cY) :=
+  naming_not_inj_on_move dgW (Or.inl rfl) (Or.inr rfl) move_collides_witness.1 move_collides_witness.2.1
+
+/-- `hash_input_eq_iff` / `hash_input_determines_spec` / `shift_labels_prefix` on the witness -/
+example : cX.spec = cY.spec ∧ cX.labels <+: cY.labels ++ cY.annos ∧ cY.labels <+: cX.labels ++ cX.annos :=
+  ⟨hash_input_determines_spec move_collides_witness.2.2, shift_labels_prefix move_collides_witness.2.2,
+   shift_labels_prefix move_collides_witness.2.2.symm⟩
+
+/-- `matching_hash_never_creates` on the list and the continuation of `reconcile` after the move -/
+example : NoCreate (renumLoop (HD.hash cY) 1 [newRev HD (comp0 cX) 1] 0 fun ex =>
+    if ex > 0 then .ret .done else .call (.createRev (newRev HD (comp0 cY) 2)) fun _ => .ret .err) :=
+  matching_hash_never_creates _ _ _ (fun n hn => by simp [hn, NoCreate]) _ (by decide) ⟨_, List.mem_cons_self .., by decide⟩
+
+/-- `new_revision_is_copy` on a spec with every field set -/
+example : (newRev HD ⟨"comp", 1, ⟨[("a", "b")], [], ⟨"example.org/v1", "XThing", some "Resources", ["common"], ["bucket"],
+    [("compose", "fn")], some "ns", some "vault"⟩⟩, false⟩ 4).spec.toSpec =
+    ⟨"example.org/v1", "XThing", some "Resources", ["common"], ["bucket"], [("compose", "fn")], some "ns", some "vault"⟩ := by decide
 
 end Xp.C12
